@@ -11,7 +11,7 @@ def _alarm(sig, frm):
     raise _Timeout()
 
 
-def run(seed, tier):
+def run(seed, tier, history='plain'):
     import numpy as np
     from opticomlib.typing import gv, binary_sequence, electrical_signal, optical_signal, eye
     from opticomlib import devices as D, ppm, ook, utils
@@ -145,6 +145,53 @@ def run(seed, tier):
         add('osig.slice', lambda a: a[3:40:2], mk, layout=lay)
     signal.signal(signal.SIGALRM, _alarm)
     bad, n, names, samples = [], 0, set(), []
+    if history in ('after_other_grid', 'fresh'):
+        # "deterministic blocks give identical results whatever was called before": digest of every result under grid B,
+        # either in a fresh process or after the same calls were made under another grid A (see C14.bounded)
+        import hashlib
+        digests = {}
+
+        def digest(o):
+            h = hashlib.sha256()
+            def feed(x):
+                if isinstance(x, dict):
+                    for k in sorted(x):
+                        h.update(str(k).encode()); feed(x[k])
+                elif isinstance(x, list):
+                    for y in x:
+                        feed(y)
+                elif isinstance(x, np.ndarray):
+                    h.update(str(x.shape).encode()); h.update(str(x.dtype).encode()); h.update(np.ascontiguousarray(x).tobytes())
+                else:
+                    h.update(repr(x).encode())
+            feed(snapshot(o))
+            return h.hexdigest()[:16]
+        grids = ([dict(sps=16, R=2.5e9, N=32)] if history == 'after_other_grid' else []) + [dict(sps=8, R=10e9, N=32)]
+        for gi, g in enumerate(grids):
+            gv(**g)
+            for (name, lay, f, mk_args) in cases:
+                if name in ('LASER',):
+                    continue
+                rng2 = np.random.default_rng(seed + 7)
+                st0 = rng.bit_generator.state
+                rng.bit_generator.state = rng2.bit_generator.state if False else st0
+                args = [m() for m in mk_args]
+                rng.bit_generator.state = st0
+                np.random.seed(4321 + seed)
+                signal.alarm(60)
+                try:
+                    out = f(*args)
+                    d = digest(out)
+                except _Timeout:
+                    d = 'timeout'
+                except Exception as e:
+                    d = 'raised ' + type(e).__name__
+                finally:
+                    signal.alarm(0)
+                if gi == len(grids) - 1:
+                    digests[f'{name}|{lay}'] = d
+        gv.clean()
+        return {'digests': digests}
     for (name, lay, f, mk_args) in cases:
         st0 = rng.bit_generator.state
         results = []
